@@ -84,7 +84,7 @@ theorem P_quot (par : Bool) (a b : E) (ha : P cfg a) (hb : P cfg b) : P cfg (.qu
 
 theorem P_pow (par : Bool) (a b : E) (ha : P cfg a) (hb : P cfg b) : P cfg (.pow par a b) := by
   intro hg
-  simp only [Good, Bool.and_eq_true, decide_eq_true_eq] at hg
+  simp only [Good, Bool.and_eq_true, Bool.or_eq_true, decide_eq_true_eq] at hg
   obtain ⟨⟨⟨hga, hgb⟩, hla⟩, hlb⟩ := hg
   obtain ⟨hAa, _⟩ := ha hga
   obtain ⟨hAb, _⟩ := hb hgb
@@ -92,7 +92,13 @@ theorem P_pow (par : Bool) (a b : E) (ha : P cfg a) (hb : P cfg b) : P cfg (.pow
   intro p
   obtain ⟨sa, hsa, hea⟩ := hAa PREC_POWER
   obtain ⟨sb, hsb, heb⟩ := hAb PREC_POWER
-  have hbody := G.pow (hsa.weaken hla (outLv_le _ _)) (hsb.weaken hlb (outLv_le _ _))
+  have hbase := wrapG' hsa (outLv_le _ _) (powBaseParen a (printF cfg a PREC_POWER))
+  have hbase7 : G 7 (parenIf (powBaseParen a (printF cfg a PREC_POWER)) (printF cfg a PREC_POWER)) sa := by
+    refine hbase.weaken ?_ (by split <;> simp [outLv_le])
+    cases hla with
+    | inl h => simp [h]
+    | inr h => split <;> omega
+  have hbody := G.pow hbase7 (hsb.weaken hlb (outLv_le _ _))
   have := wrapG hbody (by omega) par (decide (p > PREC_POWER))
   refine ⟨_, ?_, by rw [den]; exact SEq.pow hea heb⟩
   simpa [outLv, printF] using this
